@@ -101,6 +101,14 @@ def prove_identity(hyps, lhs, rhs):
     try:
         defs = sqrt_defs_from_hyps(hyps)
         sub = const_substs_from_hyps(hyps)
+        # a vanishing square root of a sum of squares makes every summand vanish (real closed field)
+        for s_, E in defs:
+            if sub.get(s_) == 0:
+                Ee = sympy.expand(E)
+                terms = Ee.as_ordered_terms()
+                if all(t_.is_Pow and t_.exp == 2 and t_.base.is_Symbol for t_ in terms):
+                    for t_ in terms:
+                        sub[t_.base] = sympy.Integer(0)
         expr = z3_to_sympy(lhs) - z3_to_sympy(rhs)
         if sub:
             expr = expr.subs(sub)
